@@ -293,3 +293,87 @@ def initializer_deflation(d, ctx):
             f'{np.max(np.abs(out.sum(0) - 1))}')
     ctx.nontrivial(K >= 2)
     ctx.label(f'F={F}', f'K={K}')
+
+
+# --------------------------------------------------------------------------
+# predict on directly constructed models (arbitrary parameters, not fitted)
+# --------------------------------------------------------------------------
+
+@subcheck(SUBCHECKS, 'predict_constructed_model', quick=500, thorough=9000)
+def predict_constructed_model(d, ctx):
+    import pb_bss.distribution as dist
+    from pbv import gen
+    kind = d.choice(['cacgmm', 'cacgmm', 'cwmm', 'gmm', 'vmfmm'])
+    lead = tuple(d.int(1, 3) for _ in range(d.int(0, 1)))
+    K, D, N = d.int(1, 5), d.int(2, 8), d.int(1, 12)
+    single = d.int(0, 2) == 0
+    rng = d.rng()
+    w = rng.dirichlet(np.ones(K) * d.choice([0.3, 1.0, 5.0]), size=lead)[..., None]
+    case = mm.Case(kind=kind, lead=lead, K=K, D=D, N=N)
+    case.meta.update(single=single)
+    mask = None
+    if kind in ('cacgmm', 'cwmm'):
+        y = gen.cnormal(rng, (*lead, N, D))
+        protos = gen.unit(gen.cnormal(rng, (*lead, K, D)))
+        # some observations right on a class prototype (extreme log-pdf gaps)
+        for n in range(N):
+            if rng.uniform() < 0.5:
+                k = rng.integers(K)
+                y[..., n, :] = protos[..., k, :] * (1 + 1e-3 * y[..., n, :])
+        y = y * 10 ** rng.uniform(-3, 3, size=(*lead, N, 1))
+        if single:
+            y = y.astype(np.complex64)
+    else:
+        y = rng.normal(size=(*lead, N, D)) * 2
+        if single:
+            y = y.astype(np.float32)
+    rd = np.float32 if single else np.float64
+    if kind == 'cacgmm':
+        cond = d.log10(0, 10)
+        V = np.empty((*lead, K, D, D), dtype=np.complex128)
+        lam = np.empty((*lead, K, D))
+        for idx in np.ndindex(*lead, K):
+            V[idx] = gen.haar_unitary(rng, D)
+            V[idx][:, -1] = protos[idx]
+            V[idx] = np.linalg.qr(V[idx][:, ::-1])[0][:, ::-1]
+            lam[idx] = np.sort(gen.spectrum(rng, D, cond))
+        cacg = dist.ComplexAngularCentralGaussian(
+            covariance_eigenvectors=V.astype(np.complex64 if single else np.complex128),
+            covariance_eigenvalues=lam.astype(rd))
+        model = dist.CACGMM(weight=w.astype(rd), cacg=cacg)
+        if d.bool():
+            mask = rng.uniform(size=(*lead, K, N)) > 0.4
+            if d.bool():
+                mask[..., :, 0] = False
+            case.opts['source_activity_mask'] = mask
+        ctx.describe(kind=kind, lead=lead, K=K, D=D, N=N, single=single,
+                     cond=cond, mask=mask is not None)
+    elif kind == 'cwmm':
+        kappa = 10 ** rng.uniform(-3, np.log10(500), size=(*lead, K))
+        model = dist.CWMM(weight=w, complex_watson=dist.ComplexWatson(
+            mode=protos, concentration=kappa))
+        ctx.describe(kind=kind, lead=lead, K=K, D=D, N=N, single=single)
+    elif kind == 'gmm':
+        cond = d.log10(0, 6)
+        cov = gen.spd(rng, D, cond, 1.0, (*lead, K))
+        mean = rng.normal(size=(*lead, K, D)) * 3
+        model = dist.GMM(weight=w, gaussian=dist.Gaussian(mean=mean, covariance=cov))
+        ctx.describe(kind=kind, lead=lead, K=K, D=D, N=N, single=single, cond=cond)
+    else:
+        kappa = 10 ** rng.uniform(-6, np.log10(500), size=(*lead, K))
+        mean = gen.unit(rng.normal(size=(*lead, K, D)))
+        model = dist.VMFMM(weight=w, vmf=dist.VonMisesFisher(mean=mean, concentration=kappa))
+        ctx.describe(kind=kind, lead=lead, K=K, D=D, N=N, single=single)
+    case.y = y
+    post = ctx.lib(mm.predict, model, case)
+    check_valid(post, case, 'predict', mask=mask)
+    lp = ctx.lib(mm.component_log_pdf, model, case)
+    if np.any(np.isnan(lp)) or np.any(lp == np.inf):
+        raise Borderline('component density overflow')
+    ref = mm.bayes_posterior(model, case, mask=mask, log_pdf=lp)
+    err = float(np.max(np.abs(ref - post)))
+    require(err <= tol_for(case), 'posterior-is-bayes-rule',
+            f'max |predict - Bayes| = {err:.3e}', kind=kind)
+    ctx.nontrivial(K >= 2)
+    ctx.label(kind, 'single' if single else 'double',
+              'mask' if mask is not None else 'no-mask')
